@@ -110,6 +110,13 @@ fn main() {
             let k: usize = mode.strip_prefix("split:").map(|k| k.parse().unwrap()).unwrap_or(usize::MAX);
             match mode.as_str() {
                 "nomodel" => {}
+                m if m.starts_with("trunc:") => {
+                    // model cut after K literals, wherever that falls
+                    let kk: usize = m[6..].parse().unwrap();
+                    reply.push_str("v ");
+                    reply.push_str(&lits[..kk.min(lits.len())].join(" "));
+                    reply.push('\n');
+                }
                 "truncated" => {
                     // model cut inside the v line, no terminating 0
                     reply.push_str("v ");
